@@ -86,8 +86,8 @@ func (p *c07) Enumerate(tier string) [][]int32 {
 				if err, esc := doPrepare(e, opt == 0); err != nil || esc != nil {
 					continue
 				}
-				doExecute(e, obj)
-				n := int(ctx.Polls)
+				under(ctx, func() { doExecute(e, obj) })
+				n := int(ctx.Ticks)
 				for k := 0; k <= n+1; k++ {
 					out = append(out, []int32{1, int32(si), int32(oi), int32(opt), 0, int32(k)})
 				}
@@ -186,11 +186,15 @@ func (s *evalSide) arm(r *c07Run) {
 	}
 }
 
-func (s *evalSide) exec(r *c07Run) Result {
-	if r.UseRun {
-		return doRun(s.e, r.Obj)
-	}
-	return doExecute(s.e, r.Obj)
+func (s *evalSide) exec(r *c07Run) (res Result) {
+	under(s.ctx, func() {
+		if r.UseRun {
+			res = doRun(s.e, r.Obj)
+		} else {
+			res = doExecute(s.e, r.Obj)
+		}
+	})
+	return
 }
 
 func (p *c07) Run(c *verifsim.Chooser, st *Stats, render bool) *Outcome {
@@ -312,8 +316,8 @@ func (p *c07) Run(c *verifsim.Chooser, st *Stats, render bool) *Outcome {
 		F.arm(r)
 		rl := L.exec(r)
 		rf := F.exec(r)
-		o.Ticks += L.ctx.Polls + F.ctx.Polls
-		prevLen = int(F.ctx.Polls)
+		o.Ticks += L.ctx.Ticks + F.ctx.Ticks
+		prevLen = int(F.ctx.Ticks)
 		kind := classifyErr(rf)
 		where := "unknown"
 		if F.faultDepth == 0 {
@@ -335,14 +339,14 @@ func (p *c07) Run(c *verifsim.Chooser, st *Stats, render bool) *Outcome {
 			st.probe("successful-run-left-scope-open(early return out of foreach)")
 		}
 		o.Digest.Str(rf.String())
-		o.Digest.U64(uint64(F.ctx.Polls))
+		o.Digest.U64(uint64(F.ctx.Ticks))
 		o.Digest.Str(joinTrace(F.h.Trace))
 		if render {
 			hist = append(hist, map[string]interface{}{
 				"run": i, "object": r.ObjDesc, "fault": r.Fault, "k": r.K, "front_end": map[bool]string{true: "Run", false: "Execute"}[r.UseRun],
 				"set_variable_before": strings.TrimSpace(r.SetVar + " " + r.SetDesc), "variables_before": snap.String(),
 				"reused": rl.String(), "fresh": rf.String(), "reused_trace": joinTrace(L.h.Trace), "fresh_trace": joinTrace(F.h.Trace),
-				"reused_ticks": L.ctx.Polls, "fresh_ticks": F.ctx.Polls,
+				"reused_ticks": L.ctx.Ticks, "fresh_ticks": F.ctx.Ticks,
 			})
 		}
 
@@ -375,8 +379,8 @@ func (p *c07) Run(c *verifsim.Chooser, st *Stats, render bool) *Outcome {
 				}
 			}
 		}
-		if obs == "" && L.ctx.Polls > F.ctx.Polls+c07TickSlack {
-			obs, detail = "ticks", fmt.Sprintf("the reused evaluator needed %d instructions, the fresh one %d", L.ctx.Polls, F.ctx.Polls)
+		if obs == "" && L.ctx.Ticks > F.ctx.Ticks+c07TickSlack {
+			obs, detail = "ticks", fmt.Sprintf("the reused evaluator needed %d ticks, the fresh one %d", L.ctx.Ticks, F.ctx.Ticks)
 		}
 		if obs == "" && L.e.VerifScopes() != F.e.VerifScopes() && L.e.VerifScopes() >= 0 {
 			obs, detail = "scopes", fmt.Sprintf("open scopes after the run: reused %d, fresh %d", L.e.VerifScopes(), F.e.VerifScopes())
